@@ -36,6 +36,7 @@ def replay_concrete(hmod, cfg, inputs, wall_s=60, complete=False):
     shims.uninstall()
     conc = ConcCtx(inputs, complete=complete)
     shims.set_ctx(conc)
+    shims.rng_fresh()
     res = {"status": "ok", "failures": [], "observations": None}
 
     def _alarm(signum, frame):
@@ -176,6 +177,7 @@ def _worker(hname, cfgs, opts, tasks, results, widx, stop_flags=None):
                     pfx, mb = stack.pop()
                     cx = SymCtx(E, known_labels=set(st.cands.keys()))
                     shims.set_ctx(cx)
+                    shims.rng_fresh()
 
                     def fn(E_, cx=cx, cfg=cfg, st=st):
                         try:
